@@ -1,4 +1,6 @@
-(* Model of the hard-link coordination in /repo/src/sync/transfer.rs (Transferrer::create, lines 88-175):
+(* Model of the hard-link coordination in /repo/src/sync/transfer.rs (Transferrer::create), following the two repairs
+   `fix: hard-link waiters register for the completion notice before re-checking the inode state` and
+   `fix: a failed first copy of a hard-link group releases the inode instead of leaving it in progress`:
    the workers of ONE link group share map[inode] in {absent, InProgress(notify), Completed(path)}.
    tokio::sync::Notify is modelled by an epoch counter: notify_waiters() increments it; a Notified future
    records the epoch at its creation and is ready once the epoch is larger (tokio's documented semantics:
@@ -15,9 +17,12 @@ Inductive mstate : Type := MAbsent | MInProgress | MCompleted (owner : nat).
 Inductive pc : Type :=
 | PRead                       (* about to lock the map and read the inode's state *)
 | PGap                        (* saw InProgress, has not yet created the Notified future *)
+| PEnabled (e : nat)          (* created and enabled its Notified future at epoch e; about to look at the map again *)
 | PWait (e : nat)             (* awaiting notified(), created at epoch e *)
 | PClaim                      (* saw absent; about to lock, double-check and insert InProgress *)
-| PCopy                       (* owner: copy_file / write_xattrs / write_acls (each may fail with `?`) *)
+| PCopy                       (* owner: copy_file / write_xattrs / write_acls (each may fail) *)
+| PRelease                    (* owner whose copy failed: remove the inode from the map *)
+| PReleaseNotify              (* ... then notify_waiters() and return the error *)
 | PDone                       (* owner: insert Completed *)
 | PNotify                     (* owner: notify_waiters() *)
 | PLink (owner : nat)         (* create_hardlink(first_path, dest) (may fail with `?`) *)
@@ -48,16 +53,22 @@ Definition step (fused : bool) (s : st) (i : nat) (fails : bool) : option st :=
       match p with
       | PRead => match s_map s with
                  | MCompleted o => upd (PLink o)
-                 | MInProgress => if fused then upd (PWait (s_epoch s)) else upd PGap
+                 | MInProgress => if fused then upd (PEnabled (s_epoch s)) else upd PGap
                  | MAbsent => upd PClaim
                  end
-      | PGap => upd (PWait (s_epoch s))
+      | PGap => upd (PEnabled (s_epoch s))
+      | PEnabled e => match s_map s with
+                      | MInProgress => upd (PWait e)        (* still in progress: await the (already registered) future *)
+                      | _ => upd PRead                      (* finished or released meanwhile: look again *)
+                      end
       | PWait e => if Nat.ltb e (s_epoch s) then upd PRead else None
       | PClaim => match s_map s with
                   | MAbsent => Some (mk_st MInProgress (s_epoch s) (set_nth (s_pcs s) i PCopy))
                   | _ => upd PRead
                   end
-      | PCopy => if fails then upd PErr else upd PDone           (* the `?` leaves InProgress behind *)
+      | PCopy => if fails then upd PRelease else upd PDone
+      | PRelease => Some (mk_st MAbsent (s_epoch s) (set_nth (s_pcs s) i PReleaseNotify))
+      | PReleaseNotify => Some (mk_st (s_map s) (S (s_epoch s)) (set_nth (s_pcs s) i PErr))
       | PDone => Some (mk_st (MCompleted i) (s_epoch s) (set_nth (s_pcs s) i PNotify))
       | PNotify => Some (mk_st (s_map s) (S (s_epoch s)) (set_nth (s_pcs s) i POkOwner))
       | PLink o => if fails then upd PErr else upd (POkLinked o)
@@ -81,7 +92,9 @@ Definition deadlocked (fused : bool) (s : st) : bool :=
 (* ---------- exhaustive exploration (finite: the epoch grows at most once per owner) ---------- *)
 Fixpoint pc_eqb (a b : pc) : bool :=
   match a, b with
-  | PRead, PRead | PGap, PGap | PClaim, PClaim | PCopy, PCopy | PDone, PDone | PNotify, PNotify | POkOwner, POkOwner | PErr, PErr => true
+  | PRead, PRead | PGap, PGap | PClaim, PClaim | PCopy, PCopy | PDone, PDone | PNotify, PNotify | POkOwner, POkOwner | PErr, PErr
+  | PRelease, PRelease | PReleaseNotify, PReleaseNotify => true
+  | PEnabled x, PEnabled y => Nat.eqb x y
   | POkLinked x, POkLinked y => Nat.eqb x y
   | PWait x, PWait y => Nat.eqb x y
   | PLink x, PLink y => Nat.eqb x y
@@ -116,7 +129,9 @@ Definition deadlock_free (fuel n : nat) (fused faults : bool) : bool :=
   let '(seen, complete) := explore fuel fused faults [] [init n] in
   complete && negb (existsb (deadlocked fused) seen).
 
-(* the link structure of a finished run: one owner o copied the file, every other worker linked to o *)
+(* the link structure of a finished run: every worker that returned Ok either is THE owner recorded in the map (it copied
+   the file) or hard-linked to that owner's destination; workers that returned an error created nothing; when no owner
+   completed, nobody returned Ok *)
 Definition structure_ok (s : st) : bool :=
   negb (all_terminal s) ||
   match s_map s with
@@ -124,9 +139,11 @@ Definition structure_ok (s : st) : bool :=
       forallb (fun ip => match snd ip with
                          | POkOwner => Nat.eqb (fst ip) o
                          | POkLinked o' => Nat.eqb o' o && negb (Nat.eqb (fst ip) o)
+                         | PErr => negb (Nat.eqb (fst ip) o)
                          | _ => false
-                         end) (combine (seq 0 (length (s_pcs s))) (s_pcs s))
-  | _ => match s_pcs s with [] => true | _ => false end
+                         end) (combine (seq 0 (length (s_pcs s))) (s_pcs s)) &&
+      match nth_error (s_pcs s) o with Some POkOwner => true | _ => false end
+  | _ => forallb (fun p => match p with PErr => true | _ => false end) (s_pcs s)
   end.
 
 (* closure of a finite set of states under every step, checked by computation *)
